@@ -179,15 +179,12 @@ func supervise(prop, tier string) int {
 		return 1
 	}
 	out := t.buf.String()
-	crashed := strings.Contains(out, "fatal error:") || strings.Contains(out, "unexpected signal") || strings.Contains(out, "SIGSEGV") ||
-		strings.Contains(out, "SIGBUS") || strings.Contains(out, "panic:") || code == -1
 	if strings.Contains(out, "out of memory") || strings.Contains(out, "cannot allocate memory") {
 		fmt.Fprintln(os.Stderr, "the check ran out of memory; nothing is concluded")
 		return 2
 	}
-	if !crashed {
-		return code
-	}
+	// the child was started for a valid property and tier: it ends with status 0 or 1 unless it dies
+	fmt.Fprintf(os.Stderr, "the exploring process ended abnormally (exit status %d)\n", code)
 	lines := strings.Split(out, "\n")
 	if i := strings.Index(out, "fatal error:"); i >= 0 {
 		lines = strings.Split(out[i:], "\n")
